@@ -559,6 +559,47 @@ pub fn anchors() -> Vec<Ty> {
         true,
     ));
 
+    // --- interior padding before a middle field, followed by a less aligned tail (struct and enum), also as FlexVec items
+    let struct_pad = sstruct("AStructPad", vec![prim(U8), prim(U32), fvec(prim(U8), L::U8)], false, false, true);
+    let enum_pad = senum(
+        "AEnumPad",
+        TagTy::U8,
+        vec![
+            var(Unit, vec![]),
+            var(Named, vec![prim(U8), prim(U32), fvec(prim(U8), L::U8)]),
+            var(Tuple, vec![prim(U8), prim(U32), prim(U8)]),
+            var(Tuple, vec![prim(U16), prim(U8)]),
+        ],
+        false,
+        false,
+        Some(0),
+    );
+    v.push(struct_pad.clone());
+    v.push(enum_pad.clone());
+    v.push(flex(struct_pad.clone(), L::U8));
+    v.push(flex(enum_pad.clone(), L::U16));
+    v.push(flex(enum_pad, L::U8));
+    let struct_pad64 = sstruct("AStructPad64", vec![prim(U64), prim(U8), fvec(prim(U8), L::U16)], false, false, true);
+    v.push(struct_pad64.clone());
+    // unsized struct with interior padding as the tail of an enum variant
+    v.push(senum(
+        "AEnumNest",
+        TagTy::U8,
+        vec![var(Unit, vec![]), var(Tuple, vec![struct_pad.clone()]), var(Tuple, vec![prim(U16), struct_pad64]), var(Named, vec![prim(U8), prim(U16)])],
+        false,
+        false,
+        Some(0),
+    ));
+    // enum whose smallest (unit, default) variant is declared last
+    v.push(senum(
+        "AEnumLastDefault",
+        TagTy::U8,
+        vec![var(Tuple, vec![prim(U32), fvec(prim(U8), L::U16)]), var(Tuple, vec![prim(U16), prim(U16)]), var(Unit, vec![])],
+        false,
+        false,
+        Some(2),
+    ));
+
     // --- 16-bit offset types with items that can exceed 64 KiB (sealing offset not representable)
     v.push(flex(Ty::FlatString(L::LeU32), L::LeU16));
     v.push(flex(Ty::FlatString(L::U32), L::U16));
